@@ -3,6 +3,7 @@ C19 — the error-set generators: `make_error_list` (general theorem, all `n`, `
 `make_asymmetric_error_set` (general theorems, all `n`, `d`, `weight_z`).  Independent of the generated code data.
 -/
 import NumqiProofs.QecAsym
+import NumqiProofs.QecFloatCeil
 
 namespace Numqi.C19
 open Numqi Numqi.Qec
@@ -61,6 +62,35 @@ theorem asymmetric_one_eq_errorList (n d : Nat) (s : List Nat) :
   · intro h
     obtain ⟨a, b, c1, c2⟩ := errorList_sound n d s h
     exact asym_complete n d 1 1 (by norm_num) s a b ((hcond s b).2 ⟨c1, c2⟩)
+
+/-- **`int(np.ceil(a / weight_z))` as computed in binary64** (`fceilDiv`: exact rational quotient, IEEE
+round-to-nearest-even to 53 bits, exact `ceil`) **is the exact ceiling or one less, never more**, for every
+positive double `weight_z` and `a/weight_z < 2^53`. -/
+theorem float_ceil_bounds (a wBits : Nat) (hw : 0 < ratOfFloatBits wBits) (ha : 0 < a)
+    (ht : 0 ≤ f64Shift (((a : ℤ) : ℚ) / ratOfFloatBits wBits)) :
+    (fceilDiv a wBits : ℤ) ≤ ⌈((a : ℤ) : ℚ) / ratOfFloatBits wBits⌉
+    ∧ ⌈((a : ℤ) : ℚ) / ratOfFloatBits wBits⌉ - 1 ≤ (fceilDiv a wBits : ℤ) :=
+  fceilDiv_bounds a wBits hw ha ht
+
+/-- **`make_asymmetric_error_set` with any binary64 `weight_z = w`** (the bound computed as the implementation
+does, in floating point): never an operator too many (`n_x+n_y+w n_z < d` with `w` at its exact value), none
+twice, and every non-identity string with `n_x+n_y+w(n_z+1) < d` is present — rounding can only drop strings
+within one `Z` of the bound. -/
+theorem asymmetric_set_float_spec (n d wBits : Nat) (hw : 0 < ratOfFloatBits wBits)
+    (ht : ∀ a : Nat, 0 < a → a ≤ d → 0 ≤ f64Shift (((a : ℤ) : ℚ) / ratOfFloatBits wBits)) :
+    (∀ s ∈ (asymErrorSetF n d wBits).map (sparseToSyms n), s.length = n ∧ (∀ x ∈ s, x < 4)
+        ∧ cnt 1 s + cnt 2 s + cnt 3 s ≠ 0
+        ∧ ((cnt 1 s + cnt 2 s : ℕ) : ℚ) + ratOfFloatBits wBits * (cnt 3 s : ℕ) < d)
+    ∧ (∀ s : List Nat, s.length = n → (∀ x ∈ s, x < 4) → cnt 1 s + cnt 2 s + cnt 3 s ≠ 0 →
+        ((cnt 1 s + cnt 2 s : ℕ) : ℚ) + ratOfFloatBits wBits * ((cnt 3 s : ℕ) + 1) < d →
+        s ∈ (asymErrorSetF n d wBits).map (sparseToSyms n))
+    ∧ ((asymErrorSetF n d wBits).map (sparseToSyms n)).Nodup :=
+  asym_float_spec n d wBits hw ht
+
+/-- the rounding case is real: `weight_z = 0.3` (bits 4599075939470750515), `d - nxy = 3`: binary64 gives
+`ceil(3/0.3) = 10`, the exact value of `3/0.3` is `10.000000000000000370…`, ceiling 11 -/
+example : fceilDiv 3 4599075939470750515 = 10
+    ∧ ratCeil (3 / ratOfFloatBits 4599075939470750515) = 11 := by decide +kernel
 
 /-- the case that was wrong before b728c8a: one qubit, distance 2 — X and Y are generated -/
 example : (asymErrorSet 1 2 1 1).map (sparseToSyms 1) = [[3], [2], [1]] := by decide
